@@ -26,7 +26,7 @@ def listenRun : Nat → S → List Bool → S
     | some (_, s') => listenRun fuel s' fails
 
 def maskBits (m : String) : Option (List Bool) :=
-  m.toList.mapM fun c => if c = '1' ∨ c = '2' then some true else if c = '0' ∨ c = '3' then some false else none   -- 1: port taken, 2: address not assigned to this host, 3: address given by a hosts-file name
+  m.toList.mapM fun c => if c = '1' ∨ c = '2' ∨ c = '4' then some true else if c = '0' ∨ c = '3' then some false else none   -- 1: port taken, 2: address not assigned to this host, 3: address given by a hosts-file name, 4: a hosts-file name one of whose addresses is not assigned to this host
 
 def stepListen (toks : List String) : Option String :=
   match toks with
